@@ -70,3 +70,12 @@ INVARIANT EmitVerdict
 
 def validate_samples(records, tag='sa'):
     return validate('SampleAlgebra', records, SA_CFG, tag)
+
+CL_CFG = '''SPECIFICATION TSpec
+CHECK_DEADLOCK FALSE
+INVARIANT EmitVerdict
+'''
+
+
+def validate_ctrl(traces, tag='cl'):
+    return validate('Trace_CtrlLife', traces, CL_CFG, tag)
